@@ -538,6 +538,14 @@ def crossing_pair(rng, ka, kb):
 
 
 def flat_pair(rng, ka, kb):
+    if ka == "PL" and kb == "PL" and rng.random() < 0.06:
+        pp = slab_plane_pair(rng)
+        if pp is not None:
+            return pp, "parallel-planes/offsets-minus1-and-minus2"
+    return _flat_pair(rng, ka, kb)
+
+
+def _flat_pair(rng, ka, kb):
     """a pair of flat objects with a scenario label (a-posteriori classification
     happens in the property module)"""
     r = rng.random()
@@ -984,3 +992,49 @@ def slab_twins(rng, kind):
         q = slab_pt(c, rng.randint(1, 3), rng.randint(-2, 2), rng.randint(-2, 2))
         return tuple(("S", slab_pt(c, t, u, w), q) for t in (-1, -2))
     raise ValueError(kind)
+
+
+def slab_plane_pair(rng):
+    """two parallel planes whose Hesse offsets (w.r.t. the normal with positive leading component) are exactly -1 and -2"""
+    n, ln = rng.choice((((1, 0, 0), 1), ((0, 1, 0), 1), ((0, 0, 1), 1), ((3, 4, 0), 5), ((0, 3, 4), 5), ((4, 0, 3), 5), ((1, 2, 2), 3), ((2, 1, 2), 3), ((2, 3, 6), 7)))
+    n = tuple(F(c) for c in n)
+    out = []
+    for off in (-1, -2):
+        for _ in range(200):
+            p = tuple(F(rng.randint(-12, 12), rng.choice((1, 2, 4))) for _ in range(3))
+            if dot(n, p) == off * ln:
+                out.append(("PL", p, mul(n, rng.choice((1, 2, F(1, 2))))))
+                break
+        else:
+            return None
+    if rng.random() < 0.5:
+        out.reverse()
+    return tuple(out)
+
+
+def cyclic_polygon(rng):
+    """a non-regular polygon with 6 or 8 vertices that all lie on one circle about their own vertex centroid (a centrally
+    symmetric subset of the lattice points of a circle), in an axis plane, possibly turned by the (3,4,5) rotation"""
+    R2, pts = rng.choice(((25, [(5, 0), (3, 4), (4, 3), (0, 5), (-3, 4), (-4, 3)]), (65, [(8, 1), (7, 4), (4, 7), (1, 8), (-1, 8), (-4, 7), (-7, 4), (-8, 1)])))
+    m = rng.choice((3, 3, 4)) if len(pts) >= 4 else 3
+    half = sorted(rng.sample(pts, m))
+    ring = half + [(-a, -b) for a, b in half]
+    sc = rng.choice((F(1, 4), F(1, 2), F(5, 4) if R2 == 25 else F(1, 4)))
+    rot = rng.random() < 0.5 and sc == F(5, 4)
+    c = rng.randrange(3)
+    o = rpt(rng, 2, (1, 2))
+    out = []
+    for a, b in ring:
+        a, b = F(a) * sc, F(b) * sc
+        if rot:
+            a, b = (3 * a - 4 * b) / 5, (4 * a + 3 * b) / 5
+        q = [F(0)] * 3
+        q[(c + 1) % 3], q[(c + 2) % 3] = a, b
+        out.append(add(o, tuple(q)))
+    # order around the circle
+    import math as _m
+    ctr = o
+    key = lambda q: _m.atan2(float(q[(c + 2) % 3] - ctr[(c + 2) % 3]), float(q[(c + 1) % 3] - ctr[(c + 1) % 3]))
+    out.sort(key=key)
+    d = ("PG", tuple(out))
+    return d if ok_coords(d, 8, 16) else None
